@@ -101,7 +101,8 @@ func (p *wat2cWorker) buildFunc_body(w io.Writer, fn *ast.Func, cRetType string)
 	io.Copy(w, &bufIns)
 
 	// 有些函数最后的位置不是 return, 需要手动清理栈
-	switch tok := stk.LastInstruction().Token(); tok {
+	// 只看函数体最外层的最后一个指令(嵌套块里的 unreachable 不代表函数以 unreachable 结束)
+	switch tok := fn.Body.List[len(fn.Body.List)-1].Token(); tok {
 	case token.INS_RETURN:
 		// 已经处理过了
 	case token.INS_UNREACHABLE:
